@@ -326,38 +326,50 @@ def yearSeconds : Nat := 86400 * 365
 
 /-! ## name messages -/
 
-/-- `MsgRegisterName` -/
-def registerName (s : State) (a : Acct) (n : Name) (dur : Nat) (pay : Nat) (contact : Nat) : M State := do
-  chk (decide (1 ≤ dur)) .invalid
-  chk (decide (pay ≠ 0)) .invalid
-  let existing := getName s n
-  match existing with
+/-- what `RegisterName` is going to write: the record, the price, and whether the previous record
+    is pruned first (new registration, renewal of an expired name, take-over) or kept (extension) -/
+structure RegPlan where
+  record : DymName
+  cost : Nat
+  prune : Bool
+
+def regPlan (s : State) (a : Acct) (n : Name) (dur contact : Nat) : RegPlan :=
+  let add := yearSeconds * dur
+  let fresh : DymName := { owner := a, controller := a, expireAt := s.now + add, configs := [], contact := contact }
+  let first := firstYearPrice s.p n + s.p.priceExtends * (dur - 1)
+  match getName s n with
+  | none => ⟨fresh, first, true⟩
+  | some d =>
+    if d.owner = a then
+      if d.expired s.now then ⟨fresh, s.p.priceExtends * dur, true⟩
+      else ⟨{ d with expireAt := d.expireAt + add, contact := if contact ≠ 0 then contact else d.contact },
+            s.p.priceExtends * dur, false⟩
+    else ⟨fresh, first, true⟩
+
+/-- `validateRegisterName`: somebody else's name can only be taken over once it has expired and
+    the grace period has passed -/
+def regAllowed (s : State) (a : Acct) (n : Name) : M Unit :=
+  match getName s n with
   | some d =>
     if d.owner = a then pure ()
     else do
       chk (d.expired s.now) .unauth
       chk (decide (¬ s.now < d.expireAt + s.p.grace)) .precond
   | none => pure ()
-  let add := yearSeconds * dur
-  let fresh : DymName := { owner := a, controller := a, expireAt := s.now + add, configs := [], contact := contact }
-  let first := firstYearPrice s.p n + s.p.priceExtends * (dur - 1)
-  -- (record, cost, prune previous record, run After hooks)
-  let (d', cost, prune) : DymName × Nat × Bool :=
-    match existing with
-    | none => (fresh, first, true)
-    | some d =>
-      if d.owner = a then
-        if d.expired s.now then (fresh, s.p.priceExtends * dur, true)
-        else ({ d with expireAt := d.expireAt + add, contact := if contact ≠ 0 then contact else d.contact },
-              s.p.priceExtends * dur, false)
-      else (fresh, first, true)
-  chk (decide (cost = pay)) .invalid
-  let s ← payAndBurn s a cost
-  if prune then do
+
+/-- `MsgRegisterName` -/
+def registerName (s : State) (a : Acct) (n : Name) (dur : Nat) (pay : Nat) (contact : Nat) : M State := do
+  chk (decide (1 ≤ dur)) .invalid
+  chk (decide (pay ≠ 0)) .invalid
+  regAllowed s a n
+  let plan := regPlan s a n dur contact
+  chk (decide (plan.cost = pay)) .invalid
+  let s ← payAndBurn s a plan.cost
+  if plan.prune then do
     let s ← pruneName s n
-    setNameAfterBoth s n d'
+    setNameAfterBoth s n plan.record
   else
-    pure (setName s n d')
+    pure (setName s n plan.record)
 
 /-- `transferDymNameOwnership` -/
 def transferOwnership (s : State) (n : Name) (d : DymName) (newOwner : Acct) : M State := do
